@@ -245,9 +245,15 @@ class FullSim:
             timers = [g for g in s.pending if g.kind == 'time']
             for g in timers:
                 if g in s.pending:
-                    s.open(g)
+                    s.open_timer(g)
                     s.drain_calls()
                     self.check_tasks()
+            # a postponed gate is delayed by one full round of timers (poll + mempool refresh)
+            if s.frozen:
+                s.thaw()
+                s.drain_calls()
+                self.check_tasks()
+        s.thaw()
         s.drain_calls()
         self.check_tasks()
 
